@@ -37,6 +37,12 @@ class SymBytes:
     def __init__(self, items):
         self.items = list(items)
 
+    def __copy__(self):
+        return type(self)(self.items)
+
+    def __deepcopy__(self, memo):    # bytes is a value (returned as is); the mutable subclass gets its own item list
+        return self if type(self) is SymBytes else type(self)(self.items)
+
     @property
     def __class__(self):
         return bytes
@@ -470,6 +476,12 @@ class SymStr:
 
     def __init__(self, items):
         self.items = list(items)
+
+    def __copy__(self):
+        return self
+
+    def __deepcopy__(self, memo):
+        return self
 
     @property
     def __class__(self):
